@@ -88,9 +88,13 @@ digits, no embedded space, padded with trailing SPACEs. -/
 def isLetter (c : Char) : Bool := decide (65 ≤ c.toNat) && decide (c.toNat ≤ 90)
 def isDigit (c : Char) : Bool := decide (48 ≤ c.toNat) && decide (c.toNat ≤ 57)
 
+/-- the 6-bit code of the character with IA-5 (ASCII) number `n`: letters `A`(65)…`Z`(90) ↦ 1…26,
+    digits `0`(48)…`9`(57) ↦ 48…57, anything else is sent as SPACE -/
+def codeOfIA5 (n : Nat) : Nat :=
+  if 65 ≤ n ∧ n ≤ 90 then n - 64 else if 48 ≤ n ∧ n ≤ 57 then n else 32
+
 /-- the 6-bit code of a character -/
-def charCode (c : Char) : Nat :=
-  if isLetter c then c.toNat - 64 else if isDigit c then c.toNat else 32
+def charCode (c : Char) : Nat := codeOfIA5 c.toNat
 
 /-- what a transponder may send: at most eight letters / digits -/
 def validCallsign (cs : List Char) : Prop :=
